@@ -28,6 +28,19 @@ CHECKS = {
         "~0.008 (thorough) are not detectable.",
         "Fixed-seed statistical test; trusts scipy.stats.binomtest; numpy generator streams assumed to be good uniform sources.",
         "DESIGN.md §3 C02"),
+    "C03": (
+        "Hypothesis-generated operation programs on labelled matrices; hidden-entity-id model (labels and cells are functions of ids), checked after every step",
+        "Model-based history search: programs of 1..8 structural operations (select/delete/insert/adjoin/concat/append/remove/incorp/"
+        "reorder/sort/group/ungroup/copy) on any labelled axis of the genotype, phased genotype, taxa-variant, phased taxa-variant, "
+        "taxa-trait and base taxa/variant/trait matrix classes; 1..6 entities per axis, optional label arrays independently present or "
+        "absent, duplicated labels, int/negative/slice/list/array/mask indices, matrix or ndarray operands. Every entity carries a hidden "
+        "id from which all its labels and data cells derive, so after each step the harness checks that every position holds the data and "
+        "all labels of one entity (the expected arrangement comes from numpy applied to the id lists; for sort/group the realised "
+        "permutation is read back and only key order is required), operands are unchanged, generic(axis=+/-) equals specific, mutating "
+        "equals non-mutating, and a reported grouping is a true contiguous partition.",
+        "Index semantics taken from numpy; operands share the receiver's entities on the other axes; tie order in sorts unconstrained; "
+        "square-taxa, breeding-value and trait-square families are covered to the extent stated in evidence.",
+        "DESIGN.md §3 C03"),
     "C09": (
         "Hypothesis-generated genotype matrices vs exact integer/Fraction definitions (exact 0/1 boundary)",
         "Generated-input search: phased/unphased matrices (ploidy 1/2/4, 1..300 taxa with the sizes where "
